@@ -11,16 +11,18 @@ BUDGET_S = {"quick": 480, "thorough": 3300}
 TIE_MODE = "adversarial"
 TIE_STABLE_FUNCS = ("_construct_call_stack_graph",)     # the comparator decides that order (C03)
 OPNAME = "aten::linear"
-KN = {"x": "gemm_kernel_x", "y": "elementwise_kernel_y"}
+KN = {"x": "gemm_kernel_x", "y": "elementwise_kernel_y", "X": "gemm_kernel_x"}      # X: the x kernel on a second stream
+STREAM = {"x": 7, "y": 7, "X": 8}
 # structures: list of (parent instance or -1, kernels launched directly beneath it)
 # an entry (parent, kernels) is an instance of the operator; (parent, kernels, "W") is a *different* operator (a wrapper)
 STRUCTS_Q = {"L": [(-1, "x"), (-1, "", "W"), (1, "xy")], "M": [(-1, "", "W"), (0, "x"), (-1, "xy")],
              "A": [(-1, "x")], "B": [(-1, "xy")], "C": [(-1, "x"), (-1, "x")],
-             "E": [(-1, "x"), (0, "y")], "F": [(-1, ""), (-1, "x")], "G": [(-1, "xy"), (-1, "x")]}
-STRUCTS_T = dict(STRUCTS_Q, D=[(-1, "xy"), (-1, "yx")], H=[(-1, "x"), (0, "y"), (-1, "x")], J=[(-1, "xx"), (-1, "x")],
+             "E": [(-1, "x"), (0, "y")], "F": [(-1, ""), (-1, "x")], "G": [(-1, "xy"), (-1, "x")],
+             "N": [(-1, "xX")]}
+STRUCTS_T = dict(STRUCTS_Q, D=[(-1, "xy"), (-1, "yx")], H=[(-1, "x"), (0, "y"), (-1, "x")], J=[(-1, "xx"), (-1, "x")], O=[(-1, "xX"), (-1, "xx")],
                  K=[(-1, "x"), (-1, "x"), (-1, "y")])
 BOUNDS = {
-    "quick": "8 nesting structures (incl. the operator inside a different wrapper operator and at top level) of 1..2 instances of the operator (top level, nested inside itself, without kernels), "
+    "quick": "9 nesting structures (one with the same kernel on two streams, equal name/start/duration reachable) (incl. the operator inside a different wrapper operator and at top level) of 1..2 instances of the operator (top level, nested inside itself, without kernels), "
              "each launching 0..2 kernels of 2 names; all times symbolic Int consistent with the structure (kernel start "
              "order free, equal starts reachable); min_pattern_len in {1,2}, top_k in {1,5}",
     "thorough": "10 structures of up to 3 instances; min_pattern_len in {1,2,3}",
@@ -64,7 +66,7 @@ def build(sk):
         for j, ch in enumerate(ks):
             ev.append(TG.runtime("cudaLaunchKernel", f"$i{i}l{j}_ts", f"$i{i}l{j}_dur", corr=corr))
             L = {"id": len(ev) - 1, "ts": f"$i{i}l{j}_ts", "dur": f"$i{i}l{j}_dur"}
-            ev.append(TG.kernel(KN[ch], f"$i{i}k{j}_ts", f"$i{i}k{j}_dur", stream=7, corr=corr))
+            ev.append(TG.kernel(KN[ch], f"$i{i}k{j}_ts", f"$i{i}k{j}_dur", stream=STREAM[ch], corr=corr))
             I["kernels"].append({"id": len(ev) - 1, "name": KN[ch], "ts": f"$i{i}k{j}_ts", "dur": f"$i{i}k{j}_dur",
                                  "launch": L})
             I["launches"].append(L)
